@@ -2,7 +2,8 @@
 # working tree of the repository. Called by ./check inside the Coq build lock, before `make`.
 import hashlib, json, os, tempfile
 
-TABLES = {"handlers": "Handlers.v", "mintsites": "MintSites.v", "blockers": "BlockerSurface.v", "determinism": "Determinism.v"}
+TABLES = {"handlers": "Handlers.v", "mintsites": "MintSites.v", "blockers": "BlockerSurface.v", "determinism": "Determinism.v",
+          "ownerflow": "OwnerFlow.v"}
 BROKEN = "(* gotrans failed on the current tree *)\nDefinition handlers := gotrans_failed_on_the_current_tree_see_log.\n"
 
 
@@ -83,6 +84,19 @@ def generate(kind, REPO, COQ, BUILD, GOENV, run, log):
                                                         for x in ss if x["target"] == "bank" and x["reach"] == "REntry"],
                             not_entry_reachable=["%s:%d %s %s %s %s referrers=%s" % (x["file"], x["line"], x["func"], x["kind"], ",".join(x.get("origin") or []), x["reach"], ",".join(x.get("referrers") or []))
                                                  for x in ss if x["reach"] != "REntry"],
+                            table_changed_since_last_run=changed,
+                            sha1=hashlib.sha1(new.encode()).hexdigest(),
+                        )
+                    if k == "ownerflow":
+                        fs = json.loads(data)["flows"]
+                        cls = {}
+                        for f in fs:
+                            cls[f["class"]] = cls.get(f["class"], 0) + 1
+                        info[k] = dict(
+                            handlers=len(fs), classes=cls,
+                            unknown={f["module"] + "." + f["method"]: f.get("reasons", [])[:3] for f in fs if f["class"] == "U"},
+                            delegations=sorted({"%s.%s -> %s (%s <- %s)" % (f["module"], f["method"], i["handler"], i["field"], i["from"])
+                                                for f in fs for i in (f.get("inner") or [])}),
                             table_changed_since_last_run=changed,
                             sha1=hashlib.sha1(new.encode()).hexdigest(),
                         )
